@@ -69,10 +69,10 @@ def run(rep):
     readall = vlib.compile_harness("readAll", "asan")
     mk = vlib.compile_harness("mkArchive", "asan")
     arcs = readcore.writer_archives(mk)
-    arcs += readcore.reference_archives(20000 if quick else 1000000, limit=24 if quick else None)
+    arcs += readcore.reference_archives(20000 if quick else 400000, limit=24 if quick else None)
     rcases, meta = [], []
     for name, arc in arcs:
-        small = len(arc) <= (6000 if quick else 200000)
+        small = len(arc) <= (6000 if quick else 30000)
         sizes = [s for s in readcore.PART_SIZES if small or s >= 7]
         if quick:
             sizes = r.sample(sizes, min(3, len(sizes)))
